@@ -42,7 +42,6 @@ import (
 	"math"
 	"math/big"
 	"os"
-	"runtime"
 	"sort"
 	"strconv"
 	"sync"
@@ -952,14 +951,7 @@ func TestC10(t *testing.T) {
 		setSizes[p.plain.name+"|"+p.named.name] = map[string]any{"values": n, "ascending_runs": len(set), "every_value_of_the_type": complete}
 		tasks = append(tasks, makeTasks(p, set, complete && p.bits == 32)...)
 	}
-	// largest tasks first is irrelevant for the result (sums), it only balances the pool
-	nw := runtime.NumCPU()
-	if nw > 16 {
-		nw = 16
-	}
-	if nw < 1 {
-		nw = 1
-	}
+	nw := ev.Workers() // min(NumCPU, 16) unless VERIF_WORKERS says otherwise; the result does not depend on it
 	ch := make(chan task, len(tasks))
 	for _, tk := range tasks {
 		ch <- tk
